@@ -30,6 +30,7 @@ def mul(a, b): return ('*', a, b)
 def div(a, b): return ('/', a, b)
 def neg(a): return ('neg', a)
 def pw(a, n): return ('^', a, int(n))
+def rpw(a, q): return ('^', a, Fraction(q))      # rational exponent, written x^(p/q)
 def call(f, *args): return ('call', f, list(args))
 def past(name, d): return ('past', name, d)
 
@@ -85,7 +86,10 @@ def render(e, rnd: random.Random = None, style=None):
         if k == 'call':
             return f"{x[1]}({(',' + sp).join(go(a) for a in x[2])})"
         if k == 'past':
-            if st['past'] == 'call':          # the x(t-tau) notation
+            if st['past'] == 'call-split' and x[2][0] == 'c' and x[2][1] > Fraction(1, 4):
+                # the x(t-a-b) notation: a numeric delay written as two subtractions, a + b = delay
+                return f"{x[1]}(t{sp}-{sp}{float(x[2][1] - Fraction(1, 4))}{sp}-{sp}0.25)"
+            if st['past'] in ('call', 'call-split'):          # the x(t-tau) notation
                 return f"{x[1]}(t{sp}-{sp}{go(x[2], 2, True)})"
             return f"past({x[1]},{sp}{go(x[2])})"
         if k == 'neg':
@@ -95,7 +99,10 @@ def render(e, rnd: random.Random = None, style=None):
         if k == '^':
             base = go(x[1], _PREC['^'] + 1)
             n = x[2]
-            s = f"{base}{st['pow']}{n}" if n >= 0 else f"{base}{st['pow']}({n})"
+            if isinstance(n, Fraction) and n.denominator != 1:
+                s = f"{base}{st['pow']}({n.numerator}/{n.denominator})"
+            else:
+                s = f"{base}{st['pow']}{n}" if n >= 0 else f"{base}{st['pow']}({n})"
             return f"({s})" if (parent_prec > _PREC['^'] or st['parens']) else s
         p = _PREC[k]
         a = go(x[1], p, False)
